@@ -475,6 +475,9 @@ void sm9_z256_modp_haf(sm9_z256_t r, const sm9_z256_t a)
 void sm9_z256_modp_neg(sm9_z256_t r, const sm9_z256_t a)
 {
 	(void)sm9_z256_sub(r, SM9_Z256_P, a);
+	if (sm9_z256_cmp(r, SM9_Z256_P) >= 0) { // a = 0
+		(void)sm9_z256_sub(r, r, SM9_Z256_P);
+	}
 }
 #endif
 
